@@ -275,3 +275,27 @@ CHECKS["C12"] = dict(
         level_note="Trusts the resolver's reading of the statement; states the statement leaves open are excluded and counted.",
     ),
 )
+
+CHECKS["C13"] = dict(
+    harnesses={"pbt": dict(src="c13_audio.cpp", cfg="asan", kind="rc")},
+    quick=[dict(name="pbt", harness="pbt", workers=8, args=["--n", "500"])],
+    thorough=[dict(name="pbt", harness="pbt", workers=16, args=["--n", "15000"], timeout=10800)],
+    rule="rapidcheck: instance (8 emulator cores weighted by speed, 1-4 chips, 4 sample rates, quiet or loud/clipping material, optionally a short song for play*) and up to 6 "
+         "audio calls (generate, generateFormat, play, playFormat) with sampleCount from {-4..3, 1022..1026, 2047, 2048, 4097, 20000, 70000, random}, sample types 0..11, container "
+         "1/2/3/4/8, interleaved or planar layout, stride multiples 1-3. The history runs on two fresh instances with different position-dependent poison (a byte counts as written "
+         "unless it keeps both poisons) and on an F64 twin: exactly the reported samples must be stored, return values must follow the rules, and every supported pair must be the "
+         "documented conversion of the twin's signal bit for bit. Non-trivial = non-silent signal and at least one supported-format call compared; distinct by FNV-64 of the case.",
+    assumptions=[
+        "two fresh instances given the same history in one process produce the same audio (that is property C14)",
+        "refused (unsupported) calls are ordered after the accepted ones in a history, because the statement does not say whether a refused call may consume synth time",
+        "sample offsets are multiples of the container size and buffers are suitably aligned (caller obligations)",
+        "rendered frames per case are capped for slow cores (Nuked)",
+    ],
+    min_nontrivial={"quick": 300, "thorough": 3000},
+    manifest=dict(
+        technique="differential + guard-pattern property testing: dual-poison write-set check and bit-exact conversion oracle against an F64 twin instance",
+        level_text="Generated call histories over all type/container/layout combinations; the set of modified bytes is determined exactly with two poison patterns and "
+                   "the converted samples are compared bit for bit with the documented formulas applied to the float64 rendering of the same history.",
+        level_note="Trusts determinism across instances (C14) and the harness's transcription of the documented conversion formulas.",
+    ),
+)
